@@ -9,6 +9,14 @@ one() {
   id=$1; P=${id%%-*}; N=regress-$id
   D=$(tools/scratch_repo.sh new $N 2>/dev/null) || { echo "$id worktree-failed"; return; }
   if ! (cd $D && git apply /verif/seeded/$id/patch.diff 2>/dev/null); then echo "$id patch-does-not-apply"; tools/scratch_repo.sh rm $N; return; fi
+  if [[ $id == HARMLESS-* ]]; then   # property-preserving rewrite: every check must stay silent
+    bad=""
+    for C in $(seq -f "C%02g" 1 20); do
+      VERIF_REPO=$D VERIF_EVIDENCE_DIR=/tmp/vp-$N-ev ./check $C --tier quick > /tmp/$N.$C.log 2>&1 || bad="$bad $C"
+    done
+    [ -z "$bad" ] && echo "$id silent (all 20 quick checks rc=0)" || echo "$id FALSE-ALARM:$bad"
+    tools/scratch_repo.sh rm $N; return
+  fi
   for tier in quick thorough; do
     VERIF_REPO=$D VERIF_EVIDENCE_DIR=/tmp/vp-$N-ev ./check $P --tier $tier > /tmp/$N.$tier.log 2>&1; rc=$?
     if [ $rc -eq 1 ]; then echo "$id $tier $(grep -m1 VIOLATION /tmp/$N.$tier.log | cut -c1-120)"; break; fi
@@ -18,4 +26,4 @@ one() {
 }
 export -f one
 printf '%s\n' $IDS | xargs -P ${SEED_JOBS:-3} -I{} bash -c 'one {}' | sort | tee /tmp/seed_regress.out
-! grep -q "MISSED\|does-not-apply\|failed" /tmp/seed_regress.out
+! grep -q "MISSED\|does-not-apply\|failed\|FALSE-ALARM" /tmp/seed_regress.out
